@@ -200,12 +200,23 @@ def _case(draw, max_lines=30):
         if c == "j9":
             plain = draw(st.one_of(S.text_value(max_size=10, alphabet_mid=S.TEXT_END), S.numeric_value(), S.hex_value()))
             pool.append({"cls": "j9", "plain": plain})
+            if draw(st.integers(0, 4)) == 0:
+                # a $9$ plaintext with a Latin-1 character, and the different secret whose character is 128
+                # lower (both only ever written as $9$ strings: clear non-ASCII secrets are outside the domain)
+                k = draw(st.integers(0, len(plain)))
+                ch = draw(st.sampled_from([x for x in range(0xA1, 0xFF) if chr(x - 128).isalnum()]))  # (the twin stays free of quote / terminator characters)
+                pool[-1] = {"cls": "j9", "plain": plain[:k] + chr(ch) + plain[k:]}
+                twin = plain[:k] + chr(ch - 128) + plain[k:]
+                if draw(st.booleans()) and twin not in core.builtin_reserved():  # ('25' + 'x' is the reserved word 'x25')
+                    pool.append({"cls": "j9", "plain": twin})
         else:
             v = draw(S.value_of(c))
             if pool and c in ("hex", "type7", "text") and draw(st.integers(0, 5)) == 0:
                 same = [p["value"] for p in pool if p.get("cls") == c]
-                if same and draw(st.sampled_from(same)).swapcase() not in core.builtin_reserved():
-                    v = draw(st.sampled_from(same)).swapcase()
+                if same:
+                    sw = draw(st.sampled_from(same)).swapcase()
+                    if sw not in core.builtin_reserved():  # (a reserved word is left alone by design: C10)
+                        v = sw
             if c == "text" and draw(st.integers(0, 7)) == 0:
                 v = "netconanRemoved%d" % draw(st.integers(0, 6))  # a secret that looks like a pseudonym
             if c == "text" and draw(st.integers(0, 7)) == 0:
@@ -221,7 +232,7 @@ def _case(draw, max_lines=30):
             continue
         p = draw(st.sampled_from(pool)) if not big or len(lines) >= len(pool) else pool[len(lines)]
         if p["cls"] == "j9":
-            if draw(st.integers(0, 3)) == 0:
+            if draw(st.integers(0, 3)) == 0 and p["plain"].isascii():
                 v = p["plain"]
                 c = sorted(S.classify(v) - {"hex"} or {"hex"})[0] if S.classify(v) != {"text"} else "text"
                 c = "numeric" if v.isdigit() else ("hex" if S.classify(v) == {"hex"} else ("type7" if "type7" in S.classify(v) else "text"))
